@@ -4,6 +4,7 @@ Property theorems only; helpers live in Gem/SpecProof.lean, Gem/RulesLemmas.lean
 -/
 import RosedVerif.Gem.SpecProof
 import RosedVerif.Gem.RulesLemmas
+import RosedVerif.Gen.Rules
 namespace RosedVerif.Props
 open RosedVerif Cls Spec
 
@@ -19,6 +20,24 @@ theorem C01 (rs : List Int) : splitGo rs = specSplit (rs.map classOf) := by
 /-- the executable model used by the driver and by every other layer is the same function -/
 theorem C01_model (rs : List Int) : splitRunes rs = specSplit (rs.map classOf) :=
   split_eq_specSplit _
+
+/-- **regenerated tie of the rule chain**: the ordered guards of `shouldBreakAfter`, re-extracted from
+the source on every run (Gen/Rules.lean), evaluate to the model's rule chain `brkCore` for every class
+pair and both context bits (GB11 scan result, RI parity).  A harmless reordering of independent rules
+re-proves by itself; a harmful edit fails here with the offending case.  When the function no longer
+has the shape the extractor knows, `Gen.rulesExtracted = false` and the rule chain is tied by the
+G-split correspondence alone (the check's evidence says which). -/
+def ruleChainAgrees : Bool :=
+  Cls.all.all fun r => Cls.all.all fun nx => [true, false].all fun ep => [true, false].all fun re =>
+    evalRules Gen.rulesDefault r nx ep re Gen.rules == brkCore r nx ep re
+
+theorem C01_rule_chain (hx : Gen.rulesExtracted = true) (r nx : Cls) (ep re : Bool) :
+    evalRules Gen.rulesDefault r nx ep re Gen.rules = brkCore r nx ep re := by
+  have h : (!Gen.rulesExtracted || ruleChainAgrees) = true := by decide +kernel
+  rw [hx] at h
+  simp only [Bool.not_true, Bool.false_or, ruleChainAgrees, List.all_eq_true] at h
+  have := h r (Cls.mem_all r) nx (Cls.mem_all nx) ep (by cases ep <;> simp) re (by cases re <;> simp)
+  simpa using this
 
 /-! ### corollaries named in the property -/
 
